@@ -218,8 +218,12 @@ def laziness(ctx):
         adds = [x for x in calls_in(m) if isinstance(x.func, ast.Attribute) and x.func.attr == '_add_op']
         ctx.require(len(adds) == 1, 'Iter.%s: _add_op call not found' % name)
         cb = adds[0].args[2] if len(adds[0].args) > 2 else None
-        ctx.require(isinstance(cb, ast.Lambda), 'Iter.%s: callback is not a lambda' % name)
         n += 1
+        if not isinstance(cb, ast.Lambda):
+            ctx.ob(False, m, 'stage %s is the lazy combinator %s applied in a lambda' % (name, comb.split('.')[-1]),
+                   'the stage callback is %s, not `lambda stream, scope: %s(...)`' % (src(cb) if cb is not None else None, comb.split('.')[-1]),
+                   node=adds[0])
+            continue
         itp = cb.args.args[0].arg
         body = cb.body
         ok = isinstance(body, ast.Call) and callee_qual(p, p.unit_of(cb), body) == comb
@@ -291,7 +295,10 @@ def stage_table(ctx):
         ok = isinstance(add.args[0], ast.Constant) and add.args[0].value == name
         ctx.ob(ok, m, 'stage %s records its own method name (repr re-invokes it): %s' % (name, norm(add.args[0])))
         cb = add.args[2]
-        lu = p.unit_of(cb)
+        lu = p.unit_of(cb) if isinstance(cb, ast.Lambda) else None
+        if lu is None:
+            ctx.ob(False, m, 'stage %s has a lambda callback' % name, node=add)
+            continue
         if kind == 'spec':
             # the per-item function evaluates the stage's spec on the item in the evaluation's frame
             inner = [x for x in lu.children if x.is_lambda]
@@ -369,3 +376,37 @@ def terminals(ctx):
     ok = len(fn) == 1 and not any(isinstance(c, ast.Call) and isinstance(c.func, ast.Name) and c.func.id in ('list', 'tuple', 'sorted') for c in ast.walk(fn[0]))
     ctx.ob(ok, 'boltons/iterutils.py', 'boltons first() does not materialise the stream')
     ctx.floor(5)
+
+
+@rule('C17.9')
+def no_state_in_builders(ctx):
+    """a stage is built once and evaluated many times: nothing allocated while
+    *building* the spec may be written while *evaluating* it"""
+    an = ctx.analysis
+    p = ctx.program
+    an.all_effects()
+    n = 0
+    spec_classes = set(p.glomit_classes())
+    for u in p.package_units():
+        if u.parent is None:
+            continue
+        top = u
+        while top.parent is not None:
+            top = top.parent
+        if top.cls not in spec_classes or top.name in ('glomit', '_glomit', '_iterate', 'agg', '_agg', '_fold', '__repr__'):
+            continue
+        n += 1
+        lo, hi = u.node.lineno, getattr(u.node, 'end_lineno', u.node.lineno)
+        bad = []
+        for e in an.direct_effects(u):
+            for t in e.origins:
+                if t[0] == 'fresh' and not (lo <= t[1][0] <= hi):
+                    bad.append((e, t))
+        for e, t in bad:
+            ctx.ob(False, u, 'a callback built by %s.%s writes nothing allocated at build time: %s' % (top.cls.name, top.name, e.text()),
+                   '%s on %s allocated at line %d of the builder: state shared by every evaluation of the spec'
+                   % (e.kind, src(e.base), t[1][0]), node=e.node)
+        if not bad:
+            ctx.ob(True, u, 'callback of %s.%s keeps no build-time state' % (top.cls.name, top.name))
+    if n < 15:
+        raise AnalysisError('C17.9: only %d builder callbacks found (floor 15)' % n)
